@@ -337,6 +337,21 @@ def check_flatten(run, A):
     okc = {f for f in found} == {('Gt', True), ('Lt', False)}
     run.check(ok and okc, 'FORM', 'quantile_mask: q >= 0 marks points above the (1-q) quantile, q < 0 points below the |q| quantile', fn.loc(), '',
               f'percentile arguments ok: {ok}; comparison direction per branch ok: {okc}', construct=f'FORM::{q}::direction')
+    # the quantile is one of MAGNITUDES: what is ranked and what is compared with the level is |signal| (complex numbers have no order; NumPy would rank them by real part)
+    from ..walk import reaches_param_avoiding
+    is_abs = lambda x: is_call_to(x, 'numpy.abs', 'numpy.absolute', 'builtin.abs')
+    ranked = [call_arg(e.term, 0, 'a') for e in pcs]
+    compared = []
+    for e in g.events:
+        if e.kind == 'store':
+            for _c, leaf in gamma_paths(e.term.args[2]):
+                leaf = strip_views(leaf)
+                if leaf.op == 'cmp' and leaf.args[0] in ('Gt', 'Lt', 'GtE', 'LtE'):
+                    compared += [leaf.args[1], leaf.args[2]]
+    bare = [x for x in ranked + compared if x is not None and reaches_param_avoiding(x, 'signal', is_abs)]
+    run.floor('quantile_mask: ranked / compared operands', len(ranked) + len(compared), 6)
+    run.check(not bare, 'FORM', 'quantile_mask: the values ranked and compared with the quantile are magnitudes of the signal', fn.loc(getattr(bare[0], 'node', None) if bare else None), '',
+              'the signal reaches np.percentile / the comparison without np.abs: a complex STFT is ranked by its real part', construct=f'FORM::{q}::magnitudes')
 
 
 def check_no_mutation(run, A):
